@@ -30,7 +30,18 @@ RULE = ('exhaustive small scope, then seeded random, then a malformed stream. (1
         'every index over 3 symbols for <= 5 rows (ndarray, Field, indexed-string Field index; sorted or merely '
         'pre-grouped) and Session.distinct on 1-2 arrays. (6) random frames up to 40 rows, 1-3 keys, cardinality <= 5. '
         '(7) malformed: untruthful hint, ragged columns, target = key, unknown names, empty lists, destination name '
-        'clash (model == implementation only; never counted as property cases). HDF5-backed cases cost ~10-25 ms '
+        'clash (model == implementation only; never counted as property cases). (8) KEY VALUES: every key sequence over 3 '
+        'symbols for <= 3 rows (5 symbols for 2 rows) in 10 value flavours whose neighbouring keys differ only in trailing '
+        'blanks / tabs / newlines / case / high bytes (fixed and indexed strings) or sit at both ends of int8 / int64 / uint64 / '
+        'float32 / float64 (signed zeros = one key), group-by + drop_duplicates; 10 mixed pairs of them in both orders over all '
+        'pair sequences <= 2 rows (thorough 3); random frames with 1-3 such keys; Session.aggregate_* / distinct on such arrays '
+        '(by groupby_key_embedding the result must be the image of the result on ranks). (9) HISTORIES on ONE dataframe object: '
+        '11 scripts (group by k; change column k through the field — data[:] = new, clear()+write(), field.apply_index in place — '
+        'or through the dataframe — apply_filter / apply_index / sort_values in place; group by k again; interleaved group-bys on '
+        'other keys, drop_duplicates, repeated calls, rewritten targets) over every (old, new) pair of key sequences over 3 '
+        'symbols for 1-2 rows, 150 sampled pairs of 3 rows (thorough all 729), 60 (thorough 500) random histories of 5-9 events; '
+        'every destination and the final source frame compared. Change-directed (harness/hot.py): new small literals of the '
+        'tree under test are planted as row counts; a changed tree triples the sampled budgets. HDF5-backed cases cost ~10-25 ms '
         'each, hence the row bounds. After every call the whole destination dataframe (names, class / dtype / strlen / '
         'categorical key and content of every column, read through the cached and through fresh Field objects) and the '
         'source dataframe are compared with the model AND with the row-level specification.')
@@ -44,7 +55,7 @@ TRUSTED = ['numpy np.asarray / np.unique(return_inverse) used by _stack_key_colu
 ASSUMPTIONS = ['fields are well-formed (index dataset = prefix sums of entry lengths) and all columns have the same length',
                'keys and targets are totally ordered (no NaN)', 'a sorted hint is truthful',
                'strings contain no NUL characters (numpy S/U arrays drop trailing NULs)']
-LEVEL_TEXT = ('20 theorems in coq/Props/C07.v (all closed under the global context) prove for all inputs (unbounded rows, key '
+LEVEL_TEXT = ('24 theorems in coq/Props/C07.v (all closed under the global context) prove for all inputs (unbounded rows, key '
               'columns, groups, entry lengths, targets, calls): the row-level composition (stable lexicographic sort + spans of '
               'the sorted key rows + ANY per-span reduction = that reduction applied to the members of each distinct key tuple '
               'in original row order, keys ascending; span lengths = group sizes; counts sum to the row count; a sorted input '
@@ -56,7 +67,11 @@ LEVEL_TEXT = ('20 theorems in coq/Props/C07.v (all closed under the global conte
               'groupby_agg_target_correct, groupby_count_correct, drop_duplicates_correct are its per-call parts); '
               'Session.aggregate_count/min/max/first/last (aggregate_correct, aggregate_count_correct, '
               'aggregate_agrees_with_groupby) and Session.distinct (session_distinct_correct) equal their references of '
-              'Spec/GroupSpec.v. The model is tied to the repository by the differential run described in `rule`, where '
+              'Spec/GroupSpec.v; history_correct / history_last_call_alone: in any history of group-bys, in-place writes into '
+              'columns, field- and dataframe-level apply_index / apply_filter / sort_values on one dataframe every group-by '
+              'equals the reference of the frame as it is at the time of the call; groupby_key_embedding / '
+              'agg_by_order_embedding: groups and every aggregate are invariant under any order embedding of the key values. '
+              'The model is tied to the repository by the differential run described in `rule`, where '
               'every case is also judged against the extracted specification.')
 LEVEL_NOTE = ('The coercion performed by numpy when key columns are stacked into one 2-d array happens before any kernel '
               'runs and is outside the model (after fix F-C07b it is rank-preserving); it is covered by the correspondence '
